@@ -3,7 +3,7 @@
    This file is hand-written; it is re-checked whenever the generated table changes.
    (The table of the sources before the skip flags were repaired, with its six racy
    variables, is kept as a regression spec in C10_Regress_PreFix.v.) *)
-Require Import List String Bool.
+Require Import List String Bool Arith.
 Import ListNotations.
 Require Import BFL.C10_Model BFL.C10_Proofs BFL.C10_AccessTable.
 Local Open Scope string_scope.
@@ -27,3 +27,28 @@ Lemma current_has_executions :
   validb current_table [(Ctl, EFork); (Flt, EAcq "FilteringAlgorithm::mtx_run_");
                         (Flt, ERel "FilteringAlgorithm::mtx_run_"); (Ctl, EJoin)] = true.
 Proof. vm_compute. reflexivity. Qed.
+
+(* THE TABLE IS PINNED: a translator that under-collects (clang upgrade, renamed AST field, a root that
+   is no longer found) cannot produce a trivially race-free table.  The state the property is about
+   must be seen as SHARED (accessed by a control method while the thread may run AND by the filtering
+   thread), and the two threads must reach at least the stated numbers of method bodies. *)
+Definition required_shared : list string :=
+  [ "FilteringAlgorithm::run_"; "FilteringAlgorithm::reset_"; "FilteringAlgorithm::teardown_";
+    "FilteringAlgorithm::filtering_step_"; "FilteringAlgorithm::mtx_run_"; "FilteringAlgorithm::cv_run_";
+    "GaussianPrediction::skip_"; "GaussianCorrection::skip_"; "PFPrediction::skip_"; "PFCorrection::skip_";
+    "StateModel::skip_"; "ExogenousModel::skip_"; "SkipFlag::value_" ].
+
+Definition min_ctl_methods : nat := 20.
+Definition min_flt_methods : nat := 100.
+
+Lemma current_table_covers :
+  subset_str required_shared (shared_vars current_table) = true /\
+  Nat.leb min_ctl_methods (n_methods current_table Ctl) = true /\
+  Nat.leb min_flt_methods (n_methods current_table Flt) = true.
+Proof. vm_compute. repeat split; reflexivity. Qed.
+
+Lemma current_required_are_shared v : In v required_shared -> In v (shared_vars current_table).
+Proof.
+  intros H. destruct current_table_covers as [S _]. unfold subset_str in S.
+  rewrite forallb_forall in S. apply mem_str_in. apply S. exact H.
+Qed.
